@@ -28,7 +28,12 @@ def build_cases(env, sessions_per_cell, maxmsgs, big_share):
                     if k == sessions_per_cell - 1 and (kdf + aead) % 2 == 0:
                         # the crate accepts an empty bundle in the PSK modes; it has to round-trip too
                         psk = pskid = "-"
-                m = gen.add_pair(s, g, kem, mode, info=info, psk=psk, pskid=pskid)
+                if mode in (2, 3) and k == 0 and (kdf + aead + kem) % 3 == 0:
+                    # the sender authenticates with the very key pair the message is addressed to (legal, if unusual)
+                    gen.add_keys(s, g, kem, "kR")
+                    m = gen.add_pair(s, g, kem, mode, info=info, psk=psk, pskid=pskid, ks="kR", new_keys=False)
+                else:
+                    m = gen.add_pair(s, g, kem, mode, info=info, psk=psk, pskid=pskid)
                 if env.rnd.random() < 0.5:
                     # the single-shot forms, opened by single-shot and by composed receivers, info != aad
                     for api in APIS:
@@ -162,6 +167,7 @@ def run(env):
         raise fw.Inconclusive("only %d of 144 suite/mode cells produced an opened message" % len(cells))
     if env.tier == "thorough":
         long_sessions(env)
+        giant_messages(env)
 
 
 def long_sessions(env):
@@ -185,6 +191,33 @@ def long_sessions(env):
         if k.startswith("cell:"):
             del env.counts[k]
     env.extra_cov["long_sessions_messages"] = 66000 * 3
+
+
+def giant_messages(env):
+    """One message of 2^32 + 5 bytes per AEAD through in-place seal and both opening forms (tens of GiB of
+    memory traffic; thorough tier only).  A byte-vs-block or 32-bit length confusion shows here and nowhere else."""
+    g = gen.G(env.rnd)
+    cw = cl.CaseW()
+    n = (1 << 32) + 5
+    for i, aead in enumerate(gen.SEAL_AEADS):
+        s = cw.session(0x0020, 1, aead, sid="G%d" % i)
+        gen.add_pair(s, g, 0x0020, 0)
+        s.call("giant", cs="S", cr="R", len=n, aad="6161", api="inplace")
+        s.call("giant", cs="S", cr="R", len=n, aad="-", api="alloc")
+    res = env.drive("giant", cw.text(), build="fast", timeout=7200)
+    env.require_complete(res, "giant")
+    for s in res.sessions:
+        for op in s.ops:
+            if op.op != "giant":
+                continue
+            env.count("evaluations", 1)
+            r = op.ret or {}
+            if op.ret is None or r.get("seal") != "ok" or r.get("open") != "ok" or r.get("same") != "1" or r.get("encrypted") != "1":
+                env.violation("C01:giant:%s:%s" % (r.get("seal"), r.get("open")), "a message of 2^32+5 bytes (%s opening form) did not round-trip: seal=%s open=%s same=%s" % (
+                    op.args["api"], r.get("seal"), r.get("open"), r.get("same")), case_text=s.case_text(op.id), workload="giant")
+            else:
+                env.seen((s.ids, "giant", op.args["api"]))
+    env.extra_cov["giant_message_bytes"] = n
 
 
 def replay(env, path):
